@@ -443,4 +443,107 @@ example :
       | .done r σ' => some (r, σ'.log, σ'.misaligned)
       | _ => none) = some (42#64, [(0, [5#64, 6#64, 7#64, 8#64, 9#64])], 0) := by decide +kernel
 
+/-! ### a third example: an eBPF-to-eBPF call (`C03_x86_jit_semantics`) -/
+
+/-- `mov r6, 40 ; call +2 ; add r0, r6 ; exit ;  mov r0, 2 ; mov r6, 99 ; exit` — the main function sets r6 and calls
+    the function at slot 4, which returns 2 in r0 and overwrites r6; compiled code saves r6 … r9 around the call, so
+    r6 is 40 again when `add r0, r6` runs: the result is 42 = 2 + 40 (not 101) -/
+def exProgL : Bytes :=
+  #[0xb7,0x06,0,0,40,0,0,0,  0x85,0x10,0,0,2,0,0,0,  0x0f,0x60,0,0,0,0,0,0,  0x95,0,0,0,0,0,0,0,
+    0xb7,0x00,0,0,2,0,0,0,  0xb7,0x06,0,0,99,0,0,0,  0x95,0,0,0,0,0,0,0]
+
+def exEnvL : Env := { prog := exProgL, helpers := fun _ => none, allowed := [], usage := Interp.stackUsage exProgL none }
+
+/-- the 99 bytes the emitter model writes -/
+def exCodeL : Array UInt8 :=
+  #[0x55, 0x53, 0x41,0x55, 0x41,0x56, 0x41,0x57, 0x49,0x89,0xd2, 0x48,0x89,0xd7, 0x48,0x89,0xe5,   -- prologue as above
+    0x48,0x81,0xec,0x00,0x02,0x00,0x00, 0xe8,0x05,0x00,0x00,0x00, 0xe9,0x31,0x00,0x00,0x00,
+    0x48,0xc7,0xc3,0x28,0x00,0x00,0x00,                         -- 34: mov rbx, 40          (r6)
+    0x41,0x52, 0x53, 0x41,0x55, 0x41,0x56, 0x41,0x57,           -- 41: push r10, rbx, r13, r14, r15   (packet base, r6 … r9)
+    0xe8,0x0d,0x00,0x00,0x00,                                   --     call +13             (to 68)
+    0x41,0x5f, 0x41,0x5e, 0x41,0x5d, 0x5b, 0x41,0x5a,           --     pop r15, r14, r13, rbx, r10
+    0x48,0x01,0xd8,                                             -- 64: add rax, rbx
+    0xc3,                                                       -- 67: ret                  (to the landing pad)
+    0x48,0xc7,0xc0,0x02,0x00,0x00,0x00,                         -- 68: mov rax, 2
+    0x48,0xc7,0xc3,0x63,0x00,0x00,0x00,                         -- 75: mov rbx, 99
+    0xc3,                                                       -- 82: ret                  (to the pops at 55)
+    0x48,0x81,0xc4,0x00,0x02,0x00,0x00, 0x41,0x5f, 0x41,0x5e, 0x41,0x5d, 0x5b, 0x5d, 0xc3]   -- 83: epilogue
+def exLocsL : Array Nat := #[34, 41, 64, 67, 68, 75, 82, 0]
+def exExitL : Nat := 83
+
+def exCfgL : X86.Cfg :=
+  { code := exCodeL, codeBase := 0x100000, ext := fun _ => none, retSentinel := 0xfffffffffffffff0#64 }
+
+theorem exCheckL : Verifier.check exProgL = .ok := check_ok_of_wellFormed (by decide +kernel)
+
+set_option maxRecDepth 100000 in
+theorem exCompileL : JitEmit.compileWithLayout exProgL (fun _ => none) false false = .ok (exCodeL, exLocsL, exExitL) :=
+  eq_ok_of_ok? (by decide +kernel)
+
+theorem exExtOkL : ExtOk exCfgL exEnvL (fun _ => none) :=
+  ⟨fun _ _ _ h => by cases h, fun _ _ h => by cases h⟩
+
+theorem exEntryL : Entry exCfgL exMem exSt :=
+  ⟨exEntry.rip, exEntry.rdi, exEntry.rsi, exEntry.rdx, exEntry.rsp, exEntry.mem, exEntry.sentinel, exEntry.room⟩
+
+/-- the 256 bytes below the frame are enough for one nested call: 72 + 48 ≤ 256 -/
+theorem exStackRoom : StackRoom exSt exMem 1 := ⟨exLower, rfl, by decide +kernel⟩
+
+/-- `depthOk` as a boolean function, for evaluation -/
+private def depthOkB (clob : Nat → Nat → BitVec 64) (env : Env) (D : Nat) : State → Nat → Bool
+  | _, 0 => true
+  | s, fuel + 1 =>
+    decide (s.frames.length ≤ D) &&
+    match jitStepC clob env s with
+    | .next s' => depthOkB clob env D s' fuel
+    | _ => true
+private theorem depthOk_of_depthOkB (clob : Nat → Nat → BitVec 64) (env : Env) (D fuel : Nat) (s : State)
+    (h : depthOkB clob env D s fuel = true) : depthOk clob env D s fuel := by
+  induction fuel generalizing s with
+  | zero => trivial
+  | succ n ih =>
+    simp only [depthOkB, Bool.and_eq_true, decide_eq_true_eq] at h
+    simp only [depthOk]
+    refine ⟨h.1, ?_⟩
+    cases hs : jitStepC clob env s with
+    | next s' => rw [hs] at h; exact ih s' h.2
+    | done r s' => trivial
+    | err e s' => trivial
+    | panic => trivial
+    | fault => trivial
+
+set_option maxRecDepth 100000 in
+/-- the run from the entry state (r0 = 0xdeadbeefdeadbeef, r6 = 0xbbbbbbbbbbbbbbbb, … — whatever `exSt` holds) never
+    has more than one caller's frame -/
+theorem exDepthOk : depthOk exCfgL.clobber exEnvL 1 (entryState exMem exSt false) 10 :=
+  depthOk_of_depthOkB _ _ _ _ _ (by decide +kernel)
+
+set_option maxRecDepth 100000 in
+/-- the register-transfer semantics of the compiled code, from that entry state: 42, memory untouched, no helper call -/
+theorem exRunL : ∃ s', jitRunC exCfgL.clobber exEnvL (entryState exMem exSt false) 10 = .done 42#64 s' ∧ s'.mem = exMem ∧
+    s'.log = [] :=
+  outcome_done (by decide +kernel)
+
+/-- **`C03_x86_jit_semantics` applies**: the machine returns 42 — r6 (rbx) came back as 40 after the call, although the
+    callee set it to 99 —, the eBPF-visible memory including the stack is as the semantics leave it (`MemRel`), the
+    caller's rbx, rbp, r13, r14, r15 are restored (rbx through two levels of save/restore), the return address popped -/
+theorem C03_x86_jit_semantics_example :
+    ∃ k σ', X86.run exCfgL exSt k = .done 42#64 σ' ∧ MemRel σ'.mem exMem ∧
+      σ'.get 3 = 0xbbbbbbbbbbbbbbbb#64 ∧ σ'.get 5 = 0x5555555555555555#64 ∧ σ'.get 13 = 0xdddddddddddddddd#64 ∧
+      σ'.get 14 = 0xeeeeeeeeeeeeeeee#64 ∧ σ'.get 15 = 0xffffffffffffffff#64 ∧
+      (σ'.get X86.RSP).toNat = 0x7f0000003230 ∧
+      σ'.log.map (·.2) = [] ∧ σ'.misaligned = 0 := by
+  obtain ⟨s', hrun, hmem, hlog⟩ := exRunL
+  have h := C03_x86_jit_semantics exEnvL (fun _ => none) false exCfgL exLocsL exExitL exMem exSt 1 10 42#64 s'
+    exCheckL exCompileL exExtOkL (by decide +kernel) (Or.inr (by decide +kernel)) exEntryL rfl (by decide +kernel)
+    exStackRoom exDepthOk hrun
+  rw [hmem, hlog] at h
+  exact h
+
+set_option maxRecDepth 100000 in
+/-- … and the machine model, run on those bytes, does return 42 (after 35 instructions, not before) -/
+example :
+    (match X86.run exCfgL exSt 35 with | .done r _ => some r | _ => none) = some 42#64 ∧
+    (match X86.run exCfgL exSt 34 with | .timeout => true | _ => false) = true := by decide +kernel
+
 end Rbpf
